@@ -83,18 +83,25 @@ def _fn_values(j):
     return used
 
 
-def _single_ref_def(caller, bi, local):
-    """if `local` is assigned exactly once in the whole caller, in block bi, by `&place` / `&mut place` -> that place"""
+def _single_ref_def(caller, bi, local, depth=0):
+    """if `local` is assigned exactly once in the whole caller by `&place` / `&mut place` -> that place, with reborrow chains
+    (`t2 = &mut *t1; t1 = &mut x`) composed"""
     found = None
     for i, blk in enumerate(caller['blocks']):
         for st in blk['stmts']:
             if st['k'] == 'assign' and st['p']['l'] == local:
-                if found is not None or st['p']['p'] or i != bi or st['rv']['k'] != 'ref':
+                if found is not None or st['p']['p'] or st['rv']['k'] != 'ref':
                     return None
                 found = st['rv']['p']
         t = blk['term']
         if t and t['k'] == 'call' and t['dest']['l'] == local:
             return None
+    if found is None or local <= caller['arg_count']:
+        return None
+    if found['p'] and found['p'][0].get('k') == 'deref' and depth < 3:
+        inner = _single_ref_def(caller, bi, found['l'], depth + 1)
+        if inner is not None:
+            return {'l': inner['l'], 'p': copy.deepcopy(inner['p']) + copy.deepcopy(found['p'][1:]), 'ty': found.get('ty')}
     return found
 
 
@@ -111,6 +118,49 @@ def _forward_refs(o, fwd):
         out['p'] = copy.deepcopy(tgt['p']) + [_forward_refs(e, fwd) for e in o['p'][1:]]
         return out
     return {k: _forward_refs(v, fwd) for k, v in o.items()}
+
+
+def _whole_defs(body, local):
+    out = []
+    for blk in body['blocks']:
+        for st in blk['stmts']:
+            if st['k'] == 'assign' and st['p']['l'] == local and not st['p']['p']:
+                out.append(st['rv'])
+        t = blk['term']
+        if t and t['k'] == 'call' and t['dest']['l'] == local and not t['dest']['p']:
+            out.append(None)
+    return out
+
+
+def _closure_of(body, op, depth=0):
+    """path of the closure an operand denotes (through plain moves and `&closure`), else None"""
+    if depth > 6 or op.get('k') not in ('move', 'copy') or [e for e in op['p']['p'] if e.get('k') != 'deref']:
+        return None
+    ds = _whole_defs(body, op['p']['l'])
+    if len(ds) != 1 or ds[0] is None:
+        return None
+    rv = ds[0]
+    if rv['k'] == 'agg' and rv.get('ak') == 'closure':
+        return rv.get('closure_def')
+    if rv['k'] == 'use':
+        return _closure_of(body, rv['op'], depth + 1)
+    if rv['k'] == 'ref' and not [e for e in rv['p']['p'] if e.get('k') != 'deref']:
+        return _closure_of(body, {'k': 'copy', 'p': rv['p']}, depth + 1)
+    return None
+
+
+def _tuple_ops(body, op):
+    """the operands of the argument tuple of a Fn*::call*, or None"""
+    if op.get('k') == 'const':
+        return [] if op.get('ty') == '()' else None
+    if op.get('p', {}).get('ty') == '()':
+        return []
+    if op.get('k') not in ('move', 'copy') or op['p']['p']:
+        return None
+    ds = _whole_defs(body, op['p']['l'])
+    if len(ds) == 1 and ds[0] is not None and ds[0]['k'] == 'agg' and ds[0].get('ak') == 'tuple':
+        return copy.deepcopy(ds[0].get('ops', []))
+    return None
 
 
 def _mentions(o, local):
@@ -256,6 +306,34 @@ def apply(j):
                     changed = True
         if not changed:
             break
+    # closures that a caller hands to an inlined helper are now called in the caller itself: inline those calls too
+    for b in j['bodies']:
+        if not any(l.get('inlined_from') for l in b['locals']):
+            continue
+        for _ in range(MAX_ROUNDS):
+            n = len(b['blocks'])
+            did = False
+            for bi in range(n):
+                t = b['blocks'][bi]['term']
+                if not t or t['k'] != 'call' or not t.get('fn') or len(t['args']) != 2:
+                    continue
+                if t['fn'].get('orig', '').split('::')[-1] not in ('call_once', 'call', 'call_mut') or 'ops::Fn' not in t['fn'].get('orig', ''):
+                    continue
+                clo = _closure_of(b, t['args'][0])
+                if clo is None or clo not in bodies or bodies[clo]['kind'] != 'closure':
+                    continue
+                cb = bodies[clo]
+                targs = _tuple_ops(b, t['args'][1])
+                if targs is None or 1 + len(targs) != cb['arg_count']:
+                    continue
+                t2 = dict(t)
+                t2['args'] = [t['args'][0]] + targs
+                b['blocks'][bi]['term'] = t2
+                _splice(b, bi, cb)
+                report['inlined'][clo] = report['inlined'].get(clo, 0) + 1
+                did = True
+            if not did:
+                break
     drop = set()
     for p in new:
         still_called = any(t and t['k'] == 'call' and _callee_path(t, bodies) == p for b in j['bodies'] if b['path'] not in new
